@@ -9,4 +9,5 @@ MaxLen == 3
 Prefix == <<>>
 Starts == <<<<>>, <<<<65>>>>>>
 EmitReplay == FALSE
+LegacyChoice == FALSE
 ====
